@@ -138,7 +138,9 @@ unsafe impl GlobalAlloc for SimAlloc {
             let p = arena_alloc(layout);
             if !p.is_null() {
                 let junk = ALLOC_JUNK.load(Ordering::Relaxed);
-                std::ptr::write_bytes(p, if junk == 0 { 0xA5 } else { junk }, layout.size());
+                if junk != 0 {
+                    std::ptr::write_bytes(p, junk, layout.size());
+                }
                 return p;
             }
         }
@@ -165,7 +167,9 @@ unsafe impl GlobalAlloc for SimAlloc {
     unsafe fn dealloc(&self, ptr: *mut u8, layout: Layout) {
         let junk = ALLOC_JUNK.load(Ordering::Relaxed);
         if in_arena(ptr) {
-            std::ptr::write_bytes(ptr, if junk == 0 { 0x5A } else { !junk }, layout.size());
+            if junk != 0 {
+                std::ptr::write_bytes(ptr, !junk, layout.size());
+            }
             arena_free(ptr, layout);
             return;
         }
